@@ -6,6 +6,7 @@ package cli
 // from the declarations.
 
 import (
+	"flag"
 	"strings"
 )
 
@@ -113,6 +114,44 @@ func vRowLines(name, desc, env, def string, hide bool) []string {
 	return out
 }
 
+// custom values in the help: the default shown is String(), unless the type has
+// IsDefault() and it answers true
+type vHV struct {
+	text  string
+	isDef bool
+}
+
+func (v *vHV) String() string     { return v.text }
+func (v *vHV) Set(s string) error { v.text = s; return nil }
+
+type vHV00 struct{ vHV }
+type vHV10 struct{ vHV } // IsBoolFlag
+type vHV01 struct{ vHV } // IsDefault
+type vHV11 struct{ vHV }
+
+func (v *vHV10) IsBoolFlag() bool { return true }
+func (v *vHV11) IsBoolFlag() bool { return true }
+func (v *vHV01) IsDefault() bool  { return v.isDef }
+func (v *vHV11) IsDefault() bool  { return v.isDef }
+
+// vMkHV: a custom value of symbolic shape and the default text its help row must show.
+func vMkHV(tag string) (flag.Value, string) {
+	text := []string{"false", "true", "x", ""}[vChoice(tag+".text", 4)]
+	switch vChoice(tag+".shape", 6) {
+	case 0:
+		return &vHV00{vHV{text: text}}, text
+	case 1:
+		return &vHV10{vHV{text: text}}, text
+	case 2:
+		return &vHV01{vHV{text: text}}, text
+	case 3:
+		return &vHV01{vHV{text: text, isDef: true}}, ""
+	case 4:
+		return &vHV11{vHV{text: text}}, text
+	}
+	return &vHV11{vHV{text: text, isDef: true}}, ""
+}
+
 func H_helptext() {
 	wl := vParamInt("wordLen")
 	depth := vParamInt("depth") // 0: root command, 1: sub-command "c" of app
@@ -179,6 +218,14 @@ func H_helptext() {
 			argLines = append(argLines, vRowLines("PAD", d, "", "\" \"", false)...)
 			specParts = append(specParts, "PAD")
 		}
+		custom := vParamInt("custom") == 1
+		if custom {
+			d := vWord("argdesc", wl)
+			v, def := vMkHV("cvarg")
+			c.Var(VarArg{Name: "CV", Desc: d, Value: v})
+			argLines = append(argLines, vRowLines("CV", d, "", def, false)...)
+			specParts = append(specParts, "CV")
+		}
 		// options: up to 3 from the pool, types and defaults of every kind
 		var optLines []string
 		nopt := vParamInt("nopts")
@@ -200,7 +247,13 @@ func H_helptext() {
 			}
 			optLines = append(optLines, vRowLines(od.show, d, env, def, hide)...)
 		}
-		if nopt > 0 {
+		if custom {
+			d := vWord("optdesc", wl)
+			v, def := vMkHV("cvopt")
+			c.Var(VarOpt{Name: "c cv", Desc: d, Value: v})
+			optLines = append(optLines, vRowLines("-c, --cv", d, "", def, false)...)
+		}
+		if nopt > 0 || custom {
 			specParts = append([]string{"[OPTIONS]"}, specParts...)
 		}
 		// sub-commands
@@ -273,6 +326,20 @@ func H_helptext() {
 		}
 	}()
 	vAssert(rec == nil, "printing help panicked")
+	// asking for the same help again shows the same text (printing changes no declaration)
+	first := buf.s
+	buf.s = ""
+	func() {
+		defer func() { rec = recover() }()
+		if useLong {
+			target.PrintLongHelp()
+		} else {
+			target.PrintHelp()
+		}
+	}()
+	vAssert(rec == nil, "printing help panicked")
+	vAssert(buf.s == first, "C17: printing the help of a command a second time shows a different text")
+	buf.s = first
 	shown := desc
 	if useLong && long != "" {
 		shown = long
